@@ -125,7 +125,8 @@ type FuncContract struct {
 	Decr     SExpr
 	Reveal   []string
 	Opaque   []string
-	Uses     []SExpr // lemma applications: added as hypotheses where evaluable
+	Uses     []SExpr // lemma applications assumed at function entry (pre-state)
+	UsesPost []SExpr // lemma applications added as hypotheses of the post obligations
 	Props    []string
 	Panics   SExpr // panics_when
 	Inline   bool  // force use of body at call sites (no contract abstraction)
@@ -532,7 +533,7 @@ func (p *parser) primary() SExpr {
 var clauseKeywords = map[string]bool{
 	"requires": true, "ensures": true, "modifies": true, "decreases": true, "reveal": true, "opaque": true,
 	"uses": true, "prop": true, "trusted": true, "invariant": true, "panics_when": true, "inline": true,
-	"induction": true, "trigger": true, "expect": true, "cover": true, "nopanic": true,
+	"induction": true, "trigger": true, "expect": true, "cover": true, "nopanic": true, "uses_post": true,
 }
 var declKeywords = map[string]bool{"spec": true, "lemma": true, "ghost": true, "func": true, "loop": true, "pred": true}
 
@@ -739,6 +740,11 @@ func parseSpecText(pkg string, lines []string) (sf *SpecFile, err error) {
 			} else if curF != nil {
 				curF.Uses = append(curF.Uses, es...)
 			}
+		case "uses_post":
+			if curF == nil {
+				panic(fmt.Errorf("spec: stray uses_post"))
+			}
+			curF.UsesPost = append(curF.UsesPost, exprList(it.text)...)
 		case "prop":
 			if curL != nil {
 				curL.Props = append(curL.Props, names(it.text)...)
